@@ -194,7 +194,10 @@ def gen_beyond(rng):
     do not fit in 64 bits of nanoseconds."""
     unit = 1 << rng.choice([32, 34, 36])
     c = rng.choice([1, 2, 4, 8])
-    t = unit // c
+    # bucket widths: a power of two, or one that does not divide 2^64 (so truncated arithmetic shifts buckets unevenly)
+    t = rng.choice([unit // c, 10**9, 2500000000, 999999937, 3 * (unit // 8)])
+    if (40 * unit) // t > 5000:
+        t = unit // c
     n = rng.choice([1, 3, 7, 10, 32])
     ts = (1 << 64) // unit + rng.randint(0, 50)
     ref = Ref(ts)
